@@ -14,6 +14,7 @@ import (
 	"github.com/nspcc-dev/neo-go/pkg/smartcontract/callflag"
 	"github.com/nspcc-dev/neo-go/pkg/smartcontract/trigger"
 	"github.com/nspcc-dev/neo-go/pkg/util"
+	"github.com/nspcc-dev/neo-go/pkg/vm"
 	"github.com/nspcc-dev/neo-go/pkg/vm/emit"
 	"github.com/nspcc-dev/neo-go/pkg/vm/opcode"
 	"github.com/nspcc-dev/neo-go/pkg/vm/stackitem"
@@ -55,9 +56,15 @@ type effects struct {
 	Ctxs    []string `json:"contexts,omitempty"`      // script hashes (LE, 8 chars) that executed at least one instruction, except the entry script
 	Invoked []string `json:"invocations,omitempty"`   // ic.Invocations
 	Stack   string   `json:"stack,omitempty"`
+	// universal observation (every execution of the check): the flags every context ran with, and
+	// the first context seen running with a flag its parent on the invocation stack did not hold
+	Grew    string         `json:"flags_grew,omitempty"`
+	FlagsOf map[string]int `json:"flags_of_contexts,omitempty"` // hash8 -> OR of the flag sets its contexts ran with
+	Union   int            `json:"flags_union"`                 // OR over all contexts that executed an instruction
 	stack   []stackitem.Item
 	ctxs    map[util.Uint160]bool
 	inv     map[util.Uint160]int
+	flagsOf map[util.Uint160]int
 }
 
 func short(h util.Uint160) string { return h.StringLE()[:8] }
@@ -70,6 +77,7 @@ type runner struct {
 	n         *chainx.Node
 	signers   []transaction.Signer
 	oracleReq uint64
+	tag       string // which prepared chain ("" = the chain of the flags sub-check, which replays rebuild)
 }
 
 func (w *runner) run(script []byte, load int) *effects {
@@ -87,18 +95,36 @@ func (w *runner) run(script []byte, load int) *effects {
 }
 
 func (w *runner) runIC(ic *interop.Context, script []byte, load int) (e *effects) {
-	e = &effects{ctxs: map[util.Uint160]bool{}}
+	return w.runLoaded(ic, script, load, func() { ic.VM.LoadScriptWithFlags(script, callflag.CallFlag(load)) })
+}
+
+// runLoaded: loadFn puts the contexts to execute onto the VM's invocation stack
+// (script and load only describe the case for reports).
+func (w *runner) runLoaded(ic *interop.Context, script []byte, load int, loadFn func()) (e *effects) {
+	e = &effects{ctxs: map[util.Uint160]bool{}, flagsOf: map[util.Uint160]int{}}
 	base := ic.DAO
 	entry := util.Uint160{}
 	first := true
+	var last *vm.Context
 	ic.VM.SetOnExecHook(func(h util.Uint160, _ int, _ opcode.Opcode) {
 		if first {
 			entry, first = h, false
 		}
 		e.ctxs[h] = true
+		if cur := ic.VM.Context(); cur != last {
+			last = cur
+			f := int(cur.GetCallFlags())
+			e.flagsOf[h] |= f
+			e.Union |= f
+			if is := ic.VM.Istack(); len(is) >= 2 && e.Grew == "" {
+				if p := is[len(is)-2]; f&^int(p.GetCallFlags()) != 0 {
+					e.Grew = fmt.Sprintf("%s:%s-above-%s:%s:depth%d", short(h), fname(f), short(p.ScriptHash()), fname(int(p.GetCallFlags())), len(is))
+				}
+			}
+		}
 	})
 	ic.VM.SetGasLimit(20000 * 100000000)
-	ic.VM.LoadScriptWithFlags(script, callflag.CallFlag(load))
+	loadFn()
 	func() {
 		defer func() {
 			if r := recover(); r != nil {
@@ -117,6 +143,15 @@ func (w *runner) runIC(ic *interop.Context, script []byte, load int) (e *effects
 		}
 	}()
 	delete(e.ctxs, entry)
+	if len(e.flagsOf) > 0 {
+		e.FlagsOf = map[string]int{}
+		for h, f := range e.flagsOf {
+			e.FlagsOf[short(h)] = f
+		}
+	}
+	if e.Grew != "" {
+		noteGrew(e, script, load, w.tag)
+	}
 	for h := range e.ctxs {
 		e.Ctxs = append(e.Ctxs, short(h))
 	}
